@@ -361,6 +361,12 @@ def unionLiteral : List Ty → Option (List Val)
   | .literal vs :: _ => some vs
   | _ :: rest => unionLiteral rest
 
+/-- the value is `==` a member of the union's `Literal` case -/
+def unionLitHit (cs : List Ty) (x : Val) : Bool :=
+  match unionLiteral cs with
+  | some vs => vs.any fun v => Val.pyEq x v
+  | none => false
+
 /-- the dumper registered for class `k`: the case whose origin class is `k`
     (the last one, should several cases share the origin: `List[int] | List[str]`) -/
 def classDumper (keys : List String) (cases : List Ty) (k : String) : Option Ty :=
@@ -402,9 +408,7 @@ def specDump (W : World) (DW : DumpWorld) : Nat → Ty → Val → Option Val
       match optionalOther cs with
       | some other => if x.isNone then some .none else specDump W DW n other x
       | none =>
-        if (match unionLiteral cs with
-            | some vs => vs.any fun v => Val.pyEq x v
-            | none => false) then some x
+        if unionLitHit cs x then some x
         else
           match specDispatch DW ks cs x with
           | some t => specDump W DW n t x
